@@ -12,7 +12,7 @@ steps:  A / N   new downstream connection (N: listener whose cluster does not ex
         C<k> R<k>  client k closes / resets        U<k> V<k>  upstream peer of k closes / resets     tok c, - (session not open)
         S<k> T<k>  bytes client→upstream / upstream→client                                            tok d, -
         H<j>- H<j>+ live host j down / up      F<j> G<j> host j unhealthy / healthy
-        + / -   another user of the resource takes (tok a admitted, r refused) / returns a slot
+        + / -   another user of the resource takes (tok a granted, r refused) / returns a slot
         I       the listener's idle timeout closes every open downstream connection               tok i
 
 Model (`A`): the steps are expanded into labels of `Model.TcpLedger` (C<k> = down remote; up local — the queued close —,
@@ -27,7 +27,7 @@ timeout when the cluster has a black hole (`T`), else a refusal.
   1. never negative: cur, cA, hA, nc ≥ 0 after every step
   2. exact / zero when idle: cur = (max = 0 ? 0 : amb + est), cA = hA = nc = est after every step — so all are 0 on an idle proxy
   3. the limit trips at the threshold: with max > 0 and cur = max before the step an `A` is closed without a dial
-     (Retry and Total unchanged) and a `+` is refused; below the limit a `+` is admitted, and an `A` is established when
+     (Retry and Total unchanged) and a `+` is refused; below the limit a `+` is granted, and an `A` is established when
      every host of the cluster is a live, up, healthy server
   4. nothing hangs (no tok h)
 -/
